@@ -41,10 +41,16 @@ pub fn generate(profile: &str, tier: Tier, seed: u64) -> Scenario {
         "C04" => Scenario::F(f::generate(&mut rng, tier)),
         "C04-encfail" => Scenario::F(f::generate_encfail(&mut rng, tier)),
         "C04-stock" => Scenario::F(f::generate_stock(&mut rng, tier)),
+        "C04-scale" => Scenario::F(f::generate_scale(&mut rng, tier)),
         "C04-quota" => Scenario::F(f::generate_quota(&mut rng, tier)),
         "C05" | "C06" | "C06-fault" | "C17-fault" | "C16-fault" | "C05-fault" | "C16" | "C16-huge" | "C17" | "C08" | "C08-obst" => Scenario::R(r::generate(&mut rng, tier, profile)),
         "C05-encfail" => Scenario::R(r::generate_encfail(&mut rng, tier, "C05")),
         "C06-encfail" => Scenario::R(r::generate_encfail(&mut rng, tier, "C06")),
+        "C08-streak" => Scenario::R(r::generate_streak(&mut rng, tier)),
+        "C05-scale" => Scenario::R(r::generate_scale(&mut rng, tier, "C05")),
+        "C06-scale" => Scenario::R(r::generate_scale(&mut rng, tier, "C06")),
+        "C16-scale" => Scenario::R(r::generate_scale(&mut rng, tier, "C16")),
+        "C17-scale" => Scenario::R(r::generate_scale(&mut rng, tier, "C17")),
         "C17-encfail" => Scenario::R(r::generate_encfail(&mut rng, tier, "C17")),
         "C16-encfail" => Scenario::R(r::generate_encfail(&mut rng, tier, "C16")),
         "C07-obst" => Scenario::R0(r0::generate_obst(&mut rng, tier)),
